@@ -27,7 +27,7 @@
      WBTreeMap::union / difference are used inside *callbacks*, which have to be total; the
      copied library proves UNCONDITIONALLY (WBT_FactsOrder.union_t_total / difference_t_total)
      that their `None` never occurs, so `union_tot` / `difference_tot` below strip the option;
-     their default branch is dead code (FactsLevel.union_tot_some / difference_tot_some).
+     their default branch is dead code (FactsMap.union_tot_some / difference_tot_some).
    * Rc sharing is invisible in a value-semantics model: a clone is a copy (as in coq/WBT).
 
    NOT modelled: `get_mut` and `iter_restrictions_mut` (property C08 does not list them; the
